@@ -21,11 +21,11 @@ type C07Case struct {
 	Stages   []string `json:"stages,omitempty"`   // staged queries; stage i reads doc + {m1..mi}; last one is compared
 	Ordered  bool     `json:"ordered,omitempty"`  // compare as sequence (else multiset)
 	// subquery forms
-	Outer    string `json:"outer,omitempty"`     // outer query with the subquery
-	Sub      string `json:"sub,omitempty"`       // subquery text, run standalone
+	Outer    string `json:"outer,omitempty"`      // outer query with the subquery
+	Sub      string `json:"sub,omitempty"`        // subquery text, run standalone
 	SubOnDoc bool   `json:"sub_on_doc,omitempty"` // standalone on the enclosing document (`<-` form) instead of the row
 	SubAlias string `json:"sub_alias,omitempty"`
-	InCol    string `json:"in_col,omitempty"`    // for IN: the outer column compared
+	InCol    string `json:"in_col,omitempty"` // for IN: the outer column compared
 	InSubCol string `json:"in_sub_col,omitempty"`
 	Not      bool   `json:"not,omitempty"`
 	ExPred   *sq.E  `json:"ex_pred,omitempty"` // EXISTS predicate over element + outer columns
